@@ -55,7 +55,7 @@ CHECKS["C02"] = dict(
           "labels distinct, every label observed; group positions are ascending, cover exactly the rows with a valid code and never a null-key row; the "
           "mixed-radix combination of several keys is injective on bounded digits and yields the null code iff ANY component is null. "
           "The same relations are evaluated directly on the real output of factorize_1d / factorize_2d / monotonic_factorization / GroupBy (plain, "
-          "chunk-wise with scaled threshold, monotonic and partially monotonic, pre-chunked arrow) and the first-appearance routes are compared with the model. "
+          "chunk-wise with scaled threshold, monotonic and partially monotonic, pre-chunked arrow; two keys with 66 000 / 70 000 labels each - beyond 2^32 combinations, the typed-dict tracker - with keys 2^32 apart planted) and the first-appearance routes are compared with the model. "
           "Sorted-prefix route: monotonic_factorization_faithful (Lemmas/Monotonic.lean, loop invariant of the run detection): for every input the cut-off is "
           "the end of the longest null-free non-decreasing prefix, one code per prefix row, labels strictly increasing, label at a row's code has the row's "
           "key; monotonic_codes_eq_iff; monotonic_null_first - for any comparison functions that agree with the key order on non-null elements. Several keys, "
@@ -188,7 +188,7 @@ CHECKS["C20"] = dict(
           "searchsorted puts x into (edge[i-1], edge[i]]. Correspondence: nanops.* vs NumPy / exact rational oracles and the Lean reduce_1d model over "
           "exhaustive null placements x threads 1..8, long float32 / float64 arrays (2e5..4e5 values, 2^24 + 1000 ones) against NumPy on the float64 copy, 2-D axes, nb_dot over ndarray/pandas/polars, all small boolean frames, edge grids incl. values on edges. "
           "Source level (new): _nb_reduce and _get_first_non_null (with the dtype dispatch of its numba overload) are translated from nanops.py / util.py on "
-          "every run and proved equal to nbReduce / firstNonNull on all six paths (LoopBridge/NbReduce; source_nb_reduce_skipna, source_nb_reduce_initial)."),
+          "every run and proved equal to nbReduce / firstNonNull on all six paths (LoopBridge/NbReduce; source_nb_reduce_skipna, source_nb_reduce_initial); _nb_dot is translated and proved to be the row-wise sum of products (LoopBridge/Dot, source_nb_dot_eq_product); the @overload(is_null) dispatch is re-read on every run and proved equal to the model's null test (LoopBridge/IsNull)."),
     note="The executable model reduce1d itself is proved end to end: reduce1d_sum_threads, reduce1d_count_threads (any thread count, float view, = NumPy nansum / count of non-null) and reduce1d_extremum_eq_numpy (max / min, any thread count whose array_split has no empty chunk, = nanmax / nanmin, NaN when all null); an EMPTY chunk (n_threads > len) makes the source read arr[0] of an empty array (undefined in the model) - exercised, no wrong result observed; mean/var/std are exact only in rational arithmetic (float results compared to 1e-9).",
     technique="Lean 4 proof (fold/chunk homomorphism, testBit induction, sorted-search lemma) + source-to-Lean translation of the reducers and of _nb_reduce / _get_first_non_null with proved bridge + differential correspondence against NumPy",
     design="§7 C20",
